@@ -92,6 +92,8 @@ func (e *Engine) lookupMethod(recv Iface, m *types.Func) Value {
 		return specialMethod{"opaqueErr." + m.Name()}
 	case *aesBlock:
 		return specialMethod{"aesBlock." + m.Name()}
+	case *ctxStub:
+		return specialMethod{"ctxStub." + m.Name()}
 	}
 	ms := e.prog.MethodSets.MethodSet(recv.T)
 	sel := ms.Lookup(m.Pkg(), m.Name())
@@ -115,6 +117,10 @@ func (e *Engine) callFn(fr *frame, fn Value, args []Value, in ssa.Value) Value {
 	case *ssa.Function:
 		if f.Name() == "init" && f.Pkg != nil && !isRepoPkg(f.Pkg.Pkg.Path()) {
 			return nil
+		}
+		if hk, ok := e.hooks[f.String()]; ok {
+			e.StubsSeen["hook:"+f.String()] = true
+			return e.callFn(fr, hk, args, nil)
 		}
 		if h, ok := intrinsics[f.String()]; ok {
 			e.StubsSeen[f.String()] = true
@@ -144,6 +150,8 @@ func (e *Engine) callFn(fr *frame, fn Value, args []Value, in ssa.Value) Value {
 		return e.runFunction(f, args, nil)
 	case *Closure:
 		return e.runFunction(f.Fn, args, f.Env)
+	case nativeFunc:
+		return f(e, fr, args)
 	case *ssa.Builtin:
 		return e.builtin(fr, f, args, in)
 	case specialMethod:
